@@ -82,3 +82,16 @@ func init() {
 			Old: "\t\tif amtToWithdraw.Gt(remainingToWithdraw) {\n", New: "\t\tif amtToWithdraw.Gte(remainingToWithdraw) {\n", Expect: "none", Benign: true},
 	)
 }
+
+func init() {
+	const comp = "internal/machine/script/compiler/compiler.go"
+	const src = "internal/machine/script/compiler/source.go"
+	const js = "internal/machine/json.go"
+	addMutants(
+		Mutant{Property: "C12", Name: "source-allotment-portions-unchecked-in-send", File: comp,
+			Old: "\t\tif err := p.VisitAllotment(c.SourceAllotment(), c.SourceAllotment().GetPortions()); err != nil {\n\t\t\treturn err\n\t\t}\n", New: "\t\tp.VisitAllotment(c.SourceAllotment(), c.SourceAllotment().GetPortions())\n", Expect: "R12g:"},
+		// (the same dropped error in VisitValueAwareSource is not a variant: that method is dead code)
+		Mutant{Property: "C12", Name: "null-number-accepted", File: js,
+			Old: "\t\tif number == nil {\n\t\t\treturn nil, errors.New(\"number must not be null\")\n\t\t}\n", New: "", Expect: "R12h:"},
+	)
+}
